@@ -61,7 +61,7 @@ def wiring_expectation(cfg, target):
     w = cfg.get('wiring')
     if not w:
         return {}
-    order = merged_order(cfg if target == 'x' else dict(cfg, route=[]))
+    order = merged_order(cfg if target in ('x', 'z') else dict(cfg, route=[]))
     pidx = [i for i, m in enumerate(order) if m['type'] == w['provider']]
     out = {}
     for i, m in enumerate(order):
@@ -107,7 +107,7 @@ def merged_order(cfg):
 def chain_functions(cfg, target='x'):
     """All function names of the route's chain, outermost first per phase.
     target 'y' is a second route, bound after the first, WITHOUT route-level middlewares."""
-    order = merged_order(cfg if target == 'x' else dict(cfg, route=[]))
+    order = merged_order(cfg if target in ('x', 'z') else dict(cfg, route=[]))
     out = {}
     for ph in PHASES:
         out[ph] = [m['name'] + '.' + ph for m in order if ph in cfg['types'][m['type']]['phases']]
@@ -115,13 +115,42 @@ def chain_functions(cfg, target='x'):
 
 
 def model_run(cfg, faults, target='x'):
-    trace, final = OnionModel(chain_functions(cfg, target), faults, cfg['ep_returns'], cfg['has_render']).run()
+    if target == 'z':
+        # the route whose endpoint is a RerouteWSGI object ("use as a route endpoint"): calling it raises it, through every
+        # layer like any exception; unless a layer keeps it, the other WSGI application answers
+        f2 = dict(faults)
+        f2['EP'] = {'beh': 'raise', 'exc': 'RerouteWSGI'}
+        trace, final = OnionModel(chain_functions(cfg, 'x'), f2, 'dict', False).run()
+        trace = [t.replace('exc:RerouteWSGI#', '?RerouteWSGI#') for t in trace if t != '>EP' and not t.startswith('!EP ')]
+        if final[0] == 'raised' and final[1] == 'RerouteWSGI':
+            return trace, (200, 'legacy')
+    else:
+        trace, final = OnionModel(chain_functions(cfg, target), faults, cfg['ep_returns'], cfg['has_render']).run()
+    return trace, _model_out(final)
+
+
+def _model_out(final):
     if final[0] == 'value' and final[1][0] == 'resp':
-        return trace, (final[1][3], final[1][2])
-    return trace, (500, None)
+        return (final[1][3], final[1][2])
+    if final[0] == 'raised' and final[1].startswith('http:'):
+        # an HTTPException raised anywhere in the chain passes every layer as an exception (judged by the trace) and
+        # is the response in the end
+        from clastic import errors as cerrors
+        return (getattr(cerrors, final[1][5:]).code, None)
+    return (500, None)
 
 
 # ---------------------------------------------------------------------------
+
+def fn_has_layers(cfg):
+    fn = chain_functions(cfg)
+    return bool(fn['request'] or fn['endpoint'])
+
+
+def _legacy_wsgi(environ, start_response):
+    start_response('200 OK', [('Content-Type', 'text/plain'), ('X-Sim-From', 'legacy')])
+    return [b'legacy']
+
 
 def build_app(cfg):
     classes = {}
@@ -150,13 +179,17 @@ def build_app(cfg):
     rn = make_function('RN', False, params_req=('context',), default_value='resp', bound=False) if cfg['has_render'] else None
     rt = Route('/x', ep, rn, middlewares=objs(route))
     rt2 = Route('/y', ep, rn)        # bound after /x, no middlewares of its own
+    extra = []
+    if cfg.get('reroute_route'):
+        from clastic.application import RerouteWSGI
+        extra.append(Route('/z', RerouteWSGI(_legacy_wsgi), middlewares=objs(route)))
     if sub is not None:
-        inner = Application([rt, rt2], middlewares=objs(sub))
+        inner = Application([rt, rt2] + extra, middlewares=objs(sub))
         if cfg.get('mid') is not None:
             middle = Application([('/sub', inner)], middlewares=objs(mid_instances(cfg)))
             return Application([('/mid', middle)], middlewares=objs(outer)), '/mid/sub/'
         return Application([('/sub', inner)], middlewares=objs(outer)), '/sub/'
-    return Application([rt, rt2], middlewares=objs(outer)), '/'
+    return Application([rt, rt2] + extra, middlewares=objs(outer)), '/'
 
 
 class C03(Check):
@@ -182,7 +215,7 @@ class C03(Check):
                   'completely and compared, event by event, with a reference interpreter; stacks are sampled by seed.')
     level_note = 'Trusted: the reference onion interpreter (written from the property text, ~90 lines).'
     required_probes = ('unique-value-class-middleware-at-two-levels', 'stack-deeper-than-64', 'three-nested-applications-with-middlewares', 'non-unique-non-reorderable-type-twice', 'two-unique-types-with-one-class-name', 'chain-consumes-every-injectable', 'same-hook-at-two-positions:static', 'same-hook-at-two-positions:one-instance', 'declared-name-provided-further-in', 'declared-name-offered',
-                       'non-response-value-through-layers', 'unique-type-twice-in-route-list', 'subclass-and-base-in-one-stack', 'closure-hooks', 'second-route-without-own-middlewares', 'render-skipped-for-response', 'no-render-layers-ran', 'unique-deduped', 'unique-type-instances-provide-different-names', 'three-levels',
+                       'non-response-value-through-layers', 'unique-type-twice-in-route-list', 'subclass-and-base-in-one-stack', 'closure-hooks', 'second-route-without-own-middlewares', 'render-skipped-for-response', 'no-render-layers-ran', 'unique-deduped', 'reroute-endpoint-under-middlewares', 'unique-type-instances-provide-different-names', 'three-levels',
                        'swallow-fired', 'double-fault')
 
     def gen_config(self, rng):
@@ -250,7 +283,9 @@ class C03(Check):
         return {'types': types, 'outer': outer, 'sub': sub, 'mid': mid, 'route': route, 'wiring': wiring,
                 # what the endpoint declares: with all four, the chain consumes EVERYTHING the framework has on offer for this route
                 'ep_consumes': rng.choice([[], [], ['request'], ['request', '_route', '_application', '_dispatch_state']]),
-                'ep_returns': rng.choice(['dict', 'dict', 'resp', 'baseresp', 'falsyresp', 'excobj']), 'has_render': rng.random() < 0.8}
+                'ep_returns': rng.choice(['dict', 'dict', 'resp', 'baseresp', 'falsyresp', 'excobj']), 'has_render': rng.random() < 0.8,
+                # a third route whose endpoint is a RerouteWSGI object (a mounted legacy WSGI application), same middlewares
+                'reroute_route': rng.random() < 0.4}
 
     def generate(self, seed, tier):
         S = Streams(seed)
@@ -259,7 +294,8 @@ class C03(Check):
         layers = fn['request'] + fn['endpoint'] + fn['render']
         ops = [{'faults': {}}]
         frng = S['faults']
-        excs = sorted(EXC_TYPES)
+        # (every third exception is one of the framework's own HTTP errors: exceptions AND responses)
+        excs = sorted(EXC_TYPES) + ['http:Forbidden', 'http:NotFound', 'http:BadRequest', 'http:Forbidden', 'http:ServiceUnavailable', 'http:Conflict', 'http:Gone']
         for name in layers:
             for beh in LAYER_BEHS:
                 ops.append({'faults': {name: {'beh': beh, 'exc': frng.choice(excs), 'value': frng.choice(['resp', 'resp', 'baseresp', 'falsyresp'])}}})
@@ -285,6 +321,11 @@ class C03(Check):
         ops.append({'faults': {}, 'target': 'y'})
         for name in ylayers[:6]:
             ops.append({'faults': {name: {'beh': frng.choice(LAYER_BEHS), 'exc': frng.choice(excs)}}, 'target': 'y'})
+        if cfg.get('reroute_route'):
+            ops.append({'faults': {}, 'target': 'z'})
+            zl = fn['request'] + fn['endpoint']
+            for name in frng.sample(zl, min(4, len(zl))):
+                ops.append({'faults': {name: {'beh': frng.choice(LAYER_BEHS), 'exc': frng.choice(excs), 'value': 'resp'}}, 'target': 'z'})
         return {'world': 'chain', 'seed': seed, 'config': cfg, 'ops': ops}
 
     def extra_plans(self, tier, base_seed):
@@ -360,6 +401,8 @@ class C03(Check):
             ex = call_app(app, make_environ('GET', path + target))
             if target == 'y':
                 res.probe('second-route-without-own-middlewares')
+            if target == 'z' and (fn_has_layers(cfg)):
+                res.probe('reroute-endpoint-under-middlewares')
             got_trace = RT.trace.get(step, [])
             got_out = (ex.code, ex.header('X-Sim-From') if ex.code in (200, 202) else None)
             fired = [f for f in faults if any(t.startswith(('!' + f + ' ', '<' + f + ' ')) for t in got_trace)
